@@ -126,6 +126,7 @@
         { unimplemented!() }
     }
     pub struct ToStrError(pub ());
+    #[derive(Debug)]
     pub struct InvalidHeaderValue(pub ());
     impl Clone for HeaderValue {
         #[verifier::external_body]
